@@ -26,6 +26,22 @@ partial def outTree : Tree → Sexp
     tag "dict" ((sortBy (fun a b => ltBytes a.1 b.1) (ks.zip vs)).map fun (k, v) => .list [ofBytes k, outTree v])
   | .obj c _ vs => tag "obj" (ofNat c :: vs.map outTree)
 
+/-- the same text as `(outTree t).str`, built in linear time (a 2^17-element list has to be printed) -/
+partial def render : Tree → String
+  | .null => "null"
+  | .bool b => "(bool " ++ (if b then "t" else "f") ++ ")"
+  | .int i => "(int " ++ toString i ++ ")"
+  | .float b => "(float " ++ toString b ++ ")"
+  | .str s => "(str " ++ (ofBytes s).str ++ ")"
+  | .list [] => "(list)"
+  | .list xs => "(list " ++ String.intercalate " " (xs.map render) ++ ")"
+  | .dict ks vs =>
+    match sortBy (fun a b => ltBytes a.1 b.1) (ks.zip vs) with
+    | [] => "(dict)"
+    | kvs => "(dict " ++ String.intercalate " " (kvs.map fun (k, v) => "(" ++ (ofBytes k).str ++ " " ++ render v ++ ")") ++ ")"
+  | .obj c _ [] => "(obj " ++ toString c ++ ")"
+  | .obj c _ vs => "(obj " ++ toString c ++ " " ++ String.intercalate " " (vs.map render) ++ ")"
+
 def namesOf (S : Schema) (c : Nat) : List Key :=
   match S[c]? with
   | some k => k.fields.map (·.name)
@@ -69,15 +85,26 @@ def field? (S : Schema) : Sexp → Option Field
     some ⟨n, a, d⟩
   | _ => none
 
+def check? : Sexp → Option Check
+  | .list [.atom "chk", f, lo, hi] => do some ⟨← bytes? f, ← int? lo, ← int? hi⟩
+  | _ => none
+
+def isChk : Sexp → Bool
+  | .list (.atom "chk" :: _) => true
+  | _ => false
+
 def schema? : List Sexp → Schema → Option Schema
   | [], acc => some acc
-  | .list (.atom "cls" :: fs) :: rest, acc => do
-    let fs ← fs.mapM (field? acc)
-    schema? rest (acc ++ [⟨fs⟩])
+  | .list (.atom "cls" :: items) :: rest, acc => do
+    let fs ← (items.filter (fun x => !isChk x)).mapM (field? acc)
+    let ck ← (match items.filter isChk with
+      | [] => some none
+      | c :: _ => (check? c).map some)
+    schema? rest (acc ++ [{ fields := fs, check := ck }])
   | _, _ => none
 
 def outRes : Except Exn Tree → Sexp
-  | .ok t => tag "ok" [outTree t]
+  | .ok t => .atom ("(ok " ++ render t ++ ")")
   | .error .valueError => tag "raise" [sym "ValueError"]
   | .error .decodeError => tag "raise" [sym "DecodeError"]
 
@@ -85,7 +112,7 @@ def rtReply (S : Schema) (x : Sexp) : Sexp :=
   match tree? S x with
   | some (.obj c ks vs) =>
     let d := dictify (.obj c ks vs)
-    .list [outTree d, outRes (fromdict S c d)]
+    .list [.atom (render d), outRes (fromdict S c d)]
   | _ => sym "bad-request"
 
 def loadReply (S : Schema) (c d : Sexp) : Sexp :=
